@@ -154,9 +154,12 @@ def add_maybe_exponent_stripped(x, y):
         ym = y
         ye = 0.0
 
-    # perform branchless for jit etc.
     e = max(xe, ye)
-    m = xm * 10 ** (xe - e) + ym * 10 ** (ye - e)
+    # n.b. if both terms are exactly zero (check_zero=True) then both
+    # exponents are -inf and their difference should be 0 rather than nan
+    dxe = 0.0 if xe == e else xe - e
+    dye = 0.0 if ye == e else ye - e
+    m = xm * 10**dxe + ym * 10**dye
 
     return (m, e)
 
